@@ -12,6 +12,7 @@ import JominiModel.Proofs.TextTapeFaithful3
 import JominiModel.Proofs.TextTapeBlank
 import JominiModel.Proofs.TextTapeFaithfulOne
 import JominiModel.Proofs.TextDocFullEmbed
+import JominiModel.Proofs.TextDocTolerated
 import JominiModel.Proofs.TextTapeDomWf
 import JominiModel.Generated.Tables
 /-
@@ -440,6 +441,100 @@ theorem C01_key_state_facts (st : St) (hG : GInv st) :
   ginv_key_facts hG
 
 example : GInv St.init := GInv.init
+
+/-! ### the tolerated malformations (outside `FFields`; C06 and C19 quantify over them too) -/
+
+/-- a stray `}` or `]` at top level, between two valid field lists, is skipped without trace: the
+tape is the tape of the first list followed by the tape of the second. -/
+theorem C01_tolerated_stray_close (fs1 fs2 : FFields) (g gt : Bytes) (c : UInt8) (hc : c = 125 ∨ c = 93)
+    (hg : Blank g) (hgt : Blank gt)
+    (hv1 : FValidF fs1 (g ++ c :: (frenderF fs2 ++ gt))) (hv2 : FValidF fs2 gt)
+    (hb : hasBom (frenderF fs1 ++ (g ++ c :: (frenderF fs2 ++ gt))) = false) :
+    parse (frenderF fs1 ++ (g ++ c :: (frenderF fs2 ++ gt))) =
+      .ok (ftapeF fs1 0 (g ++ c :: (frenderF fs2 ++ gt)) ++ ftapeF fs2 (fcntF fs1) gt) false :=
+  tolerated_stray_close fs1 fs2 g gt c hc hg hgt hv1 hv2 hb
+
+/-- `a=b } c=d` -/
+example : parse [97, 61, 98, 32, 125, 32, 99, 61, 100] =
+    .ok [.unquoted ⟨9, [97]⟩, .unquoted ⟨7, [98]⟩, .unquoted ⟨3, [99]⟩, .unquoted ⟨1, [100]⟩] false := by
+  decide +kernel
+
+example : FValidF .nil ([] ++ 125 :: (frenderF .nil ++ [])) := by simp [FValidF]
+
+/-- a missing last `}`: fields, then `key op { first rest` and the end of the input — the one open
+top-level object is closed by the end of the input (`end` = end of the tape, flag `false`, `End`
+appended); the tape is the one of the document with the `}` written, up to the scalar positions. -/
+theorem C01_tolerated_missing_close (pre : FFields) (g0 : Bytes) (k : Scal) (g1 : Bytes) (o : Op) (gv g0' : Bytes)
+    (first : FFirst) (rest : FFields) (gt : Bytes)
+    (h0 : Blank g0) (h1 : Blank g1) (hgv : Blank gv) (h0' : Blank g0') (hgt : Blank gt)
+    (hk : k.ValidX) (hkb : k.quoted = false → StartsBoundary (g1 ++ o.text))
+    (hvp : FValidF pre (g0 ++ (k.text ++ (g1 ++ (o.text ++ (gv ++ 123 :: (g0' ++ (frenderFirst first ++
+      (frenderF rest ++ gt)))))))))
+    (hvf : FValidFirst first (frenderF rest ++ gt)) (hvr : FValidF rest gt)
+    (hb : hasBom (frenderF pre ++ (g0 ++ (k.text ++ (g1 ++ (o.text ++ (gv ++ 123 :: (g0' ++ (frenderFirst first ++
+      (frenderF rest ++ gt))))))))) = false) :
+    parse (frenderF pre ++ (g0 ++ (k.text ++ (g1 ++ (o.text ++ (gv ++ 123 :: (g0' ++ (frenderFirst first ++
+      (frenderF rest ++ gt))))))))) =
+      .ok (ftapeF pre 0 (g0 ++ (k.text ++ (g1 ++ (o.text ++ (gv ++ 123 :: (g0' ++ (frenderFirst first ++
+            (frenderF rest ++ gt)))))))) ++
+          (k.tok (g1 ++ (o.text ++ (gv ++ 123 :: (g0' ++ (frenderFirst first ++ (frenderF rest ++ gt)))))) :: o.toks) ++
+          Tok.object (fcntF pre + 1 + o.toks.length + 1 + fcntFirst first + fcntF rest) false ::
+            (ftapeFirst first (fcntF pre + 1 + o.toks.length + 1) (frenderF rest ++ gt) ++
+              ftapeF rest (fcntF pre + 1 + o.toks.length + 1 + fcntFirst first) gt) ++
+          [Tok.endTok (fcntF pre + 1 + o.toks.length)]) false :=
+  tolerated_missing_close pre g0 k g1 o gv g0' first rest gt h0 h1 hgv h0' hgt hk hkb hvp hvf hvr hb
+
+/-- the hypotheses are satisfiable: `a={b=c` -/
+example : ∃ T, parse [97, 61, 123, 98, 61, 99] = .ok T false := by
+  have u : ∀ c : UInt8, isBoundary c = false → isBlank c = false → c ≠ 34 → c ≠ 64 → (Scal.mk false [c]).ValidX :=
+    fun c a b d e => .inl (unq_valid c a b d e)
+  have hbd : ∀ c : UInt8, isBoundary c = true → ∀ r, StartsBoundary (c :: r) := fun c h r => .inr ⟨c, r, rfl, h⟩
+  have := C01_tolerated_missing_close .nil [] ⟨false, [97]⟩ [] .eq [] []
+    (.kv ⟨false, [98]⟩ [] .eq (.scal [] ⟨false, [99]⟩)) .nil [] .nil .nil .nil .nil .nil
+    (u 97 (by decide +kernel) (by decide +kernel) (by decide) (by decide)) (fun _ => hbd 61 (by decide +kernel) _)
+    (by simp [FValidF])
+    (by
+      simp only [FValidFirst, FValidV, frenderF, List.nil_append]
+      exact ⟨.nil, u 98 (by decide +kernel) (by decide +kernel) (by decide) (by decide),
+        fun _ => hbd 61 (by decide +kernel) _, .nil,
+        u 99 (by decide +kernel) (by decide +kernel) (by decide) (by decide), fun _ => .inl rfl⟩)
+    (by simp [FValidF]) (by decide +kernel)
+  exact ⟨_, this⟩
+
+/-- `a={b=c`: one missing closer is tolerated … -/
+example : parse [97, 61, 123, 98, 61, 99] =
+    .ok [.unquoted ⟨6, [97]⟩, .object 4 false, .unquoted ⟨3, [98]⟩, .unquoted ⟨1, [99]⟩, .endTok 1] false := by
+  decide +kernel
+
+/-- … `a={b={c=d`: two are not, and neither is an open array (`a={1 2`) -/
+example : parse [97, 61, 123, 98, 61, 123, 99, 61, 100] = .err .eof ∧
+    parse [97, 61, 123, 49, 32, 50] = .err .eof := by decide +kernel
+
+/-- `]` where `}` is expected and vice versa: in Key state — where objects and parameter blocks
+are closed — the two bytes are one and the same token. -/
+theorem C01_tolerated_closer (st : St) (rest : Bytes) : stepKey st (93 :: rest) = stepKey st (125 :: rest) :=
+  tolerated_closer st rest
+
+/-- `x={a=b]` and `[[p] a=b } c=d` -/
+example : parse [120, 61, 123, 97, 61, 98, 93] =
+    .ok [.unquoted ⟨7, [120]⟩, .object 4 false, .unquoted ⟨4, [97]⟩, .unquoted ⟨2, [98]⟩, .endTok 1] false := by
+  decide +kernel
+
+/-- `[` and `]` inside an array are one-byte unquoted scalars: a parameter block written as an
+array element is a run of scalars. -/
+theorem C01_tolerated_bracket_in_array (n : Nat) (st : St) (g X : Bytes) (c : UInt8)
+    (hst : st.state = .arrayValue) (hg : Blank g) (hc : c = 91 ∨ c = 93) :
+    step n st (g ++ c :: X) =
+      .cont { st with tape := st.tape ++ [.unquoted ⟨(c :: X).length, [c]⟩] } X :=
+  tolerated_bracket_in_array hst hg hc
+
+example : (St.mk .arrayValue false 0 []).state = .arrayValue ∧ Blank [] := ⟨rfl, .nil⟩
+
+/-- `x={1 [[p] v]}`: the array holds `1`, `[`, `[`, `p`, `]`, `v`, `]` -/
+example : parse [120, 61, 123, 49, 32, 91, 91, 112, 93, 32, 118, 93, 125] =
+    .ok [.unquoted ⟨13, [120]⟩, .array 9 false, .unquoted ⟨10, [49]⟩, .unquoted ⟨8, [91]⟩, .unquoted ⟨7, [91]⟩,
+      .unquoted ⟨6, [112]⟩, .unquoted ⟨5, [93]⟩, .unquoted ⟨3, [118]⟩, .unquoted ⟨2, [93]⟩, .endTok 1] false := by
+  decide +kernel
 
 /-! what the parser does on the shapes outside the document type -/
 
